@@ -2,7 +2,9 @@
 (* Validation of byte strings emitted by the implementation (C02, and the
    response side of C12): every record [id, kind, bytes, reqver] is one TLC
    state.  kind = "response": well-formed TTLV + envelope (+ version echo when
-   reqver >= 0); any other kind: well-formed TTLV only.
+   reqver >= 0); "request_exec": a request frame the session executed or did
+   not refuse as invalid - its batch count must equal its number of items;
+   any other kind: well-formed TTLV only.
    Output "@B@{id, fails}" for every record with a failing clause. *)
 EXTENDS KmipEnvelope, Json, IOUtils
 
@@ -40,6 +42,9 @@ PrimFails(r) ==
 Fails(r) ==
     LET p == Parse(r.bytes) IN
     IF r.kind = "prim" THEN PrimFails(r)
+    ELSE IF r.kind = "request_exec"
+         \* a request frame the session did NOT answer with Invalid Message / did execute: it must not contradict itself
+         THEN (IF p.ok THEN RequestCountFails(p.tree) ELSE {})
     ELSE IF ~p.ok THEN {"TTLV: " \o p.why}
     ELSE IF r.kind = "response"
          THEN EnvelopeFails(p.tree)
